@@ -79,7 +79,8 @@ theorem qdm_detour_same_outcome (a : VarArg) (kw : Bool) :
       rw [this]; decide
     | obj v =>
       have hv : v.toList = "pr".toList := by simpa [isPr, streq] using hp
-      simp only [fromVariable, resolve, classify, memS, streq, hv]
+      have hs : streq v = streq "pr" := by funext x; simp [streq, hv]
+      simp only [fromVariable, resolve, classify, memS, hs]
       decide
   · have : (isPr a && kw) = false := by simpa using h
     simp [this]
@@ -138,14 +139,11 @@ theorem assign_eq_construct (rs : List Rule) (base : List (String × Val)) (k : 
   have hL := derive_view rs (setKV base k v) i0.extra hs1
   have hR := derive_view rs (setKV base k v) noExtra hs1
   have ha : assign i0 k v = ⟨setKV base k v, i0.extra⟩ := by simp [assign, hf]
-  unfold applyView construct andThen
-  simp only [if_true, ha]
-  rw [hL, ← hR]
+  rw [ha, hL, ← hR]
+  unfold andThen construct
   cases hd : derive rs ⟨setKV base k v, noExtra⟩ with
-  | error x => rfl
-  | ok j =>
-    simp only []
-    rw [derive_idem rs _ noExtra j hs1 hd]
+  | error x => simp [applyView, hd]
+  | ok j => simp [applyView, hd, derive_idem rs _ noExtra j hs1 hd]
 
 /-- the guard is vacuous for every debiaser but QuantileDeltaMapping … -/
 theorem settled_all (d : Deb) (hd : d ≠ .quantileDeltaMapping) (f : List (String × Val)) : Settled (rulesOf d) f := by
@@ -208,17 +206,7 @@ theorem invalid_rejected (f : Field) (x y : Val) (v : Validator) (e : String)
   unfold checkField
   rw [hc]
   simp only []
-  have : ∃ e', firstFailure f.validators y = some e' := by
-    induction f.validators with
-    | nil => cases hv
-    | cons w t ih =>
-      simp only [firstFailure]
-      cases hw : checkVal w y with
-      | some e2 => exact ⟨e2, rfl⟩
-      | none =>
-        rcases List.mem_cons.mp hv with h | h
-        · subst h; rw [he] at hw; cases hw
-        · exact ih h
+  have := firstFailure_of_mem f.validators y v e hv he
   obtain ⟨e', he'⟩ := this
   rw [he']
   exact ⟨e', rfl⟩
